@@ -1227,6 +1227,20 @@ fn generate(args: &[String]) -> i32 {
         let (label, src) = if rng.chance(1, 6) { binding_payload(&mut rng) } else { template(&mut rng) };
         srcs.push((label.to_string(), src));
     }
+    // the text given IS the text run: leading / trailing blank lines, indentation and non-ASCII-whitespace margins
+    // around programs that print diagnostics (positions must not move) — every mode must take the source as it is
+    // (seed C14-e2: `--eval` trimmed its code)
+    for (k, (lead, trail)) in [("\n\n   ", "\n"), ("\n", "\n\n\n"), ("  \t", ""), ("\u{b}", ""), ("", "\u{a0}"), ("\n\n", "\u{c}\n"), ("\r\n\r\n", "")]
+        .into_iter()
+        .enumerate()
+    {
+        let body = match k % 3 {
+            0 => "make unused get 1\nshout(2)\nshout(1 divide 0)",
+            1 => "shout(1)\nshout(missing_name)",
+            _ => "shout(\"ok\")\nmake x get [1]\nshout(x[5])",
+        };
+        srcs.push((format!("margin_{k}"), format!("{lead}{body}{trail}")));
+    }
     // scripts of exactly / around the 8 KiB read chunk of `run_stdin` and larger, and programs past an
     // analysis cap (labels `sized_*`, `over_*`; never put into sequences: they would not fit into one
     // argument of the child processes)
@@ -1250,7 +1264,7 @@ fn generate(args: &[String]) -> i32 {
     for _ in 0..nover {
         srcs.push(overlimit(&mut rng));
     }
-    let n = n + nbig + nover;
+    let n = n + nbig + nover + 7;
     let facts = pool(8, srcs.len(), |k| expect_child(&me, "<facts>", &srcs[k].1).0.ok().map(|e| (e.p, e.re, e.rt, e.class)));
     let pool: Vec<(String, String, Option<(usize, usize, usize, &'static str)>)> =
         srcs.into_iter().zip(facts).map(|((l, s), f)| (l, s, f)).collect();
